@@ -208,11 +208,19 @@ class BoxCoxTargetTransform(ScalarTargetTransform):
 
     # Case (1)
     def _forward_lam_gt_eps(self, numerator, boxcox_lambda):
-        return anp.divide(numerator, anp.maximum(boxcox_lambda, BOXCOX_LAMBDA_EPS))
+        # Note: ``anp.maximum`` would halve the gradient at the tie
+        # ``boxcox_lambda == BOXCOX_LAMBDA_EPS``, where this case is selected
+        denominator = anp.where(
+            boxcox_lambda >= BOXCOX_LAMBDA_EPS, boxcox_lambda, BOXCOX_LAMBDA_EPS
+        )
+        return anp.divide(numerator, denominator)
 
     # Case (2)
     def _forward_lam_lt_minuseps(self, numerator, boxcox_lambda):
-        return anp.divide(numerator, anp.minimum(boxcox_lambda, -BOXCOX_LAMBDA_EPS))
+        denominator = anp.where(
+            boxcox_lambda <= -BOXCOX_LAMBDA_EPS, boxcox_lambda, -BOXCOX_LAMBDA_EPS
+        )
+        return anp.divide(numerator, denominator)
 
     # Case (3)
     def _forward_abslam_lt_eps(self, uvals, boxcox_lambda):
